@@ -112,67 +112,7 @@ func runC12(c *eng.Ctx) {
 	c.Rule("ERRFLOW", "query/stage{per-shard plan nodes ignore not-found}", func() { shardNodesIgnoreNotFound(c) })
 
 	// ---- 2c. planning the same statement again (intermediate node) yields the same range and interval ---------------------------
-	c.Rule("ORDER", "query/context.calcTimeRangeAndInterval{range aligned before it is measured}", func() {
-		f := c.Fn("query/context.calcTimeRangeAndInterval")
-		callers := p.StaticCallers(f)
-		c.Check(len(callers) >= 2, "planned-at-root-and-intermediate", nil, f, "the statement is planned by the root and again by the intermediate node from the root's output", fmt.Sprintf("%d callers", len(callers)))
-		isBound := func(in ssa.Instruction, fld string) (*ssa.FieldAddr, bool) {
-			var addr ssa.Value
-			switch x := in.(type) {
-			case *ssa.Store:
-				addr = x.Addr
-			case *ssa.UnOp:
-				addr = x.X
-			}
-			fa, ok := addr.(*ssa.FieldAddr)
-			if !ok || eng.FieldKeyOfAddr(fa) != "pkg/timeutil.TimeRange."+fld {
-				return nil, false
-			}
-			return fa, eng.DependsOnField(fa.X, "sql/stmt.Query.TimeRange") || strings.Contains(p.Desc(fa.X), "TimeRange")
-		}
-		align := map[string][]eng.Site{}
-		for _, fld := range []string{"Start", "End"} {
-			fld := fld
-			align[fld] = p.Sites(f, func(p *eng.Prog, in ssa.Instruction) bool {
-				st, ok := in.(*ssa.Store)
-				if !ok {
-					return false
-				}
-				if _, ok := isBound(in, fld); !ok {
-					return false
-				}
-				return len(p.CallsIn(st.Val, "pkg/timeutil.Truncate")) > 0
-			})
-			c.Check(len(align[fld]) > 0, "aligned:"+fld, nil, f, "the query range "+fld+" is truncated to the storage interval", "")
-		}
-		n := 0
-		for _, st := range c.Some(f, eng.StoreField("sql/stmt.Query.Interval"), "statement.Interval = …") {
-			eng.WalkExpr(st.Instr.(*ssa.Store).Val, func(x ssa.Value) bool {
-				if cl, ok := x.(*ssa.Call); ok && len(p.CallsIn(cl, "pkg/timeutil.Truncate")) > 0 && cl.Common().StaticCallee() != nil && cl.Common().StaticCallee().Name() == "Truncate" {
-					// the truncated value itself (kept in a local): aligned by construction; what Truncate reads is its input
-					if eng.DependsOnField(cl.Common().Args[0], "pkg/timeutil.TimeRange.Start", "pkg/timeutil.TimeRange.End") {
-						n++
-						c.Check(true, fmt.Sprintf("measured-after-alignment:truncated[%d]", n), cl, f, "the automatic group-by interval is derived from the ALIGNED range", "")
-					}
-					return false
-				}
-				u, ok := x.(*ssa.UnOp)
-				if !ok {
-					return true
-				}
-				for _, fld := range []string{"Start", "End"} {
-					if _, ok := isBound(u, fld); ok {
-						n++
-						c.Check(eng.DominatedBy(f, u, align[fld], nil), fmt.Sprintf("measured-after-alignment:%s[%d]", fld, n), u, f,
-							"the automatic group-by interval is derived from the ALIGNED range: the intermediate node plans the statement the root already planned, and must arrive at the same interval (the leaves bucket by it, the root merges by its own)",
-							"TimeRange."+fld+" is read for the interval before it is truncated")
-					}
-				}
-				return true
-			})
-		}
-		c.Check(n >= 2, "auto-interval-from-range", nil, f, "the automatic interval is computed from the range's Start and End", fmt.Sprintf("%d reads", n))
-	})
+	rangeAlignedBeforeMeasured(c)
 
 	// ---- 2d. "this node does not know the metric" is said in the words the root tolerates ---------------------------------------
 	c.Rule("SYMMETRY", "index.metricMetaDatabase.GetMetricID{absence answers 'not found'}", func() {
@@ -770,4 +710,69 @@ func expectResultsCounting(c *eng.Ctx) {
 	c.Check(okLoop, "per-target", inc.Instr, ar, "the pair is added once per target of the physical plan", "")
 	ls := p.Locks(ar, nil)
 	c.Check(ls.At(inc.Instr).HasField(btcMu, true), "add-locked", inc.Instr, ar, "expectations are registered under the mutex", "")
+}
+
+func rangeAlignedBeforeMeasured(c *eng.Ctx) {
+	p := c.P
+	c.Rule("ORDER", "query/context.calcTimeRangeAndInterval{range aligned before it is measured}", func() {
+		f := c.Fn("query/context.calcTimeRangeAndInterval")
+		callers := p.StaticCallers(f)
+		c.Check(len(callers) >= 2, "planned-at-root-and-intermediate", nil, f, "the statement is planned by the root and again by the intermediate node from the root's output", fmt.Sprintf("%d callers", len(callers)))
+		isBound := func(in ssa.Instruction, fld string) (*ssa.FieldAddr, bool) {
+			var addr ssa.Value
+			switch x := in.(type) {
+			case *ssa.Store:
+				addr = x.Addr
+			case *ssa.UnOp:
+				addr = x.X
+			}
+			fa, ok := addr.(*ssa.FieldAddr)
+			if !ok || eng.FieldKeyOfAddr(fa) != "pkg/timeutil.TimeRange."+fld {
+				return nil, false
+			}
+			return fa, eng.DependsOnField(fa.X, "sql/stmt.Query.TimeRange") || strings.Contains(p.Desc(fa.X), "TimeRange")
+		}
+		align := map[string][]eng.Site{}
+		for _, fld := range []string{"Start", "End"} {
+			fld := fld
+			align[fld] = p.Sites(f, func(p *eng.Prog, in ssa.Instruction) bool {
+				st, ok := in.(*ssa.Store)
+				if !ok {
+					return false
+				}
+				if _, ok := isBound(in, fld); !ok {
+					return false
+				}
+				return len(p.CallsIn(st.Val, "pkg/timeutil.Truncate")) > 0
+			})
+			c.Check(len(align[fld]) > 0, "aligned:"+fld, nil, f, "the query range "+fld+" is truncated to the storage interval", "")
+		}
+		n := 0
+		for _, st := range c.Some(f, eng.StoreField("sql/stmt.Query.Interval"), "statement.Interval = …") {
+			eng.WalkExpr(st.Instr.(*ssa.Store).Val, func(x ssa.Value) bool {
+				if cl, ok := x.(*ssa.Call); ok && len(p.CallsIn(cl, "pkg/timeutil.Truncate")) > 0 && cl.Common().StaticCallee() != nil && cl.Common().StaticCallee().Name() == "Truncate" {
+					// the truncated value itself (kept in a local): aligned by construction; what Truncate reads is its input
+					if eng.DependsOnField(cl.Common().Args[0], "pkg/timeutil.TimeRange.Start", "pkg/timeutil.TimeRange.End") {
+						n++
+						c.Check(true, fmt.Sprintf("measured-after-alignment:truncated[%d]", n), cl, f, "the automatic group-by interval is derived from the ALIGNED range", "")
+					}
+					return false
+				}
+				u, ok := x.(*ssa.UnOp)
+				if !ok {
+					return true
+				}
+				for _, fld := range []string{"Start", "End"} {
+					if _, ok := isBound(u, fld); ok {
+						n++
+						c.Check(eng.DominatedBy(f, u, align[fld], nil), fmt.Sprintf("measured-after-alignment:%s[%d]", fld, n), u, f,
+							"the automatic group-by interval is derived from the ALIGNED range: the intermediate node plans the statement the root already planned, and must arrive at the same interval (the leaves bucket by it, the root merges by its own)",
+							"TimeRange."+fld+" is read for the interval before it is truncated")
+					}
+				}
+				return true
+			})
+		}
+		c.Check(n >= 2, "auto-interval-from-range", nil, f, "the automatic interval is computed from the range's Start and End", fmt.Sprintf("%d reads", n))
+	})
 }
